@@ -55,16 +55,22 @@ def small_file(rng, kinds=None):
             body = trajgen.encode(trajgen.rand_traj(rng, nseg=rng.choice([0, 1, 2]), maxdeg=rng.choice([1, 3])))
             if rng.random() < 0.1:
                 body = body[:rng.randint(0, 8)]
+            elif rng.random() < 0.2:
+                body = body[:rng.randint(0, len(body))]      # cut anywhere, also inside a segment
         elif ty == 2:
             body = lightgen.rand_program(rng)[:rng.choice([0, 0, 3, 40])]
         elif ty == 5:
             body = yawgen.encode(yawgen.rand_yaw(rng, n=rng.choice([0, 1, 3])))
             if rng.random() < 0.1:
                 body = body[:rng.randint(0, 2)]
+            elif rng.random() < 0.25:
+                body = body[:rng.randint(0, len(body))]      # cut anywhere, also inside a delta
         elif ty == 4:
             body = rth_encode(*rand_plan(rng, False))
             if rng.random() < 0.1:
                 body = body[:rng.randint(0, 2)]
+            elif rng.random() < 0.2:
+                body = body[:rng.randint(0, len(body))]      # cut anywhere, also inside an entry
         else:
             body = [rng.randrange(32, 127) for _ in range(rng.randint(0, 6))]
         blocks.append((ty, bytes(b & 255 for b in body)))
@@ -136,6 +142,8 @@ def scenario(rng):
                     body = rth_encode(*rand_plan(rng, False))
                 if rng.random() < 0.2:
                     body = body[:rng.choice([0, 1, 2, 3, 8, 9])]
+                elif rng.random() < 0.2:
+                    body = body[:rng.randint(0, len(body))]
                 if k == "t" and rng.random() < 0.4:
                     ops.append("tb:%d:%s" % (o, hexs(bytes(b & 255 for b in body))))
                 else:
